@@ -169,7 +169,8 @@ func toEnumList(src val.EnumList, v interface{}) (val.EnumList, error) {
 		}
 		return l, nil
 	default:
-		if e, err := toEnum(src, v); err != nil {
+		// a single value is a list of one, provided it is a declared enum
+		if e, err := toEnum(src, v); err == nil {
 			return val.EnumList([]val.Enum{e}), nil
 		}
 	}
